@@ -1,4 +1,4 @@
--- PINNED by bin/pin_tables: copy of Gen/Parse.lean as generated from /repo at 0820e18 — regenerate, do not edit
+-- PINNED by bin/pin_tables: copy of Gen/Parse.lean as generated from /repo at 18263c5 — regenerate, do not edit
 namespace Ggql.Pinned
 def sdlEmptyTokenSpins : Bool := false
 def exeVarTypeOptional : Bool := false
@@ -6,6 +6,7 @@ def fieldPosAfterLookahead : Bool := false
 def opErrPosAfterLookahead : Bool := false
 def fragCondPosAfterToken : Bool := false
 def varDefPosAfterToken : Bool := false
+def maxParseDepth : Option Nat := (some 1000)
 def parserSkeleton : List (String × String) := [
   ("ParseValue", "aee9fa3d28d3"),
   ("ParseValueString", "03432091c79e"),
@@ -15,11 +16,12 @@ def parserSkeleton : List (String × String) := [
   ("exeParser.readFragmentDef", "ac7947967256"),
   ("exeParser.readInline", "c937b7931829"),
   ("exeParser.readOp", "3f2c7946f8fe"),
-  ("exeParser.readSelectionSet", "633413140d11"),
+  ("exeParser.readSelectionSet", "355ecb6ffc3e"),
   ("exeParser.readVarDef", "c683f216d2b6"),
   ("exeParser.readVarDefs", "007f8ff5b513"),
   ("parseExe", "b2fc5513a9c5"),
   ("parseSDL", "5c0f8828856d"),
+  ("parser.deeper", "f95cc851b447"),
   ("parser.putBack", "53625e41ee42"),
   ("parser.readArgValue", "88c58bf573bb"),
   ("parser.readArgValues", "cdf8819b1f0b"),
@@ -31,8 +33,9 @@ def parserSkeleton : List (String × String) := [
   ("parser.readNumberToken", "f3b19f6d64a1"),
   ("parser.readString", "898da43fe809"),
   ("parser.readToken", "ef9998d985e1"),
-  ("parser.readType", "f46b11a601e7"),
-  ("parser.readValue", "bb751d2f2cd6"),
+  ("parser.readType", "08e7d55e1191"),
+  ("parser.readValue", "67b6dc0216a2"),
+  ("parser.shallower", "6a32e8f2f49b"),
   ("parser.skipBOM", "3748472419d4"),
   ("parser.skipSpace", "c52c2c490dec"),
   ("sdlParser.readArg", "1fd975e944de"),
